@@ -55,6 +55,21 @@ def equal_pair_programs():
 def _work(units):
     acc = progcheck.Acc()
     for v in units:
+        if v == "__comment_twins__":
+            # texts that differ ONLY inside a comment-looking region of a string literal, compiled one after the other
+            # in one process (a cache keyed by the comment-stripped source would mix them up)
+            twins = [("http://old.example/a", "http://new.example/b"), ("//a", "//b"), ("img/*.png", "img/*.jpg"), ("/*a*/", "/*b*/"), ("x//y", "x//z"),
+                     ("a/* b", "a/* c"), ("css/**/main.css", "css/**/other.css"), ("// TODO", "// DONE"), ("a */ b", "a */ c"), ("\\//a", "\\//b")]
+            for a, b in twins:
+                for lit in (a, b, a):
+                    for pos, ast, envs in programs_for(lit):
+                        if pos in ("group", "right", "tuple", "salt"):
+                            for q in ('"', "'"):
+                                text = rp.render(ast, quote=q)
+                                cl = rp.classify(text)
+                                if cl[0] == "accept" and cl[1] == ast:
+                                    progcheck.check_prog(acc, ast, envs, f"lit:twin:{pos}", text=text)
+            continue
         if v == "__equal_pairs__":
             for ast, envs in equal_pair_programs():
                 progcheck.check_prog(acc, ast, envs, "lit:equal-neighbours")
@@ -85,7 +100,7 @@ def run(res, tier):
         nums += [i, -i] if i else [0]
     for d in lits.DECS:
         nums += [float(d), -float(d)]
-    units = vals + nums + ["__equal_pairs__"]
+    units = vals + nums + ["__equal_pairs__", "__comment_twins__"]
     for w in pmap(_work, permuted(units, "c05"), chunk=8):
         res.merge_worker(w)
     res.set("states", res.cov.get("programs", 0))
